@@ -107,6 +107,8 @@ def run(ctx):
                         real.append(["search", QUERIES[op[1]], real_opts(op[2], op[3], fa, fb), (ti + pi + len(real)) % 3 == 0])
                     elif op[0] == "vanish":
                         real += [["tick"], ["tick"], ["cleanup"]]
+                    elif op[0] == "update":      # what the database is replaced by: permuted, shrunk, empty, single, grown
+                        real.append(["update", op[1] + 2 * ((ti + pi + len(real)) % 4 + (0 if op[1] == 2 else 1))])
                     else:
                         real.append(op)
                 f.write(json.dumps({"corpus": "mix", "cap": [1, 2, 50][(ti + pi) % 3], "ttl": 1, "ops": real}) + "\n")
